@@ -81,10 +81,10 @@ thread_local! {
 }
 
 /// Apply the recovered state to a fresh real node (twice) and read it back.
-fn apply_to_node(checkpoint: Option<HashMap<String, redis_sim::replication::state::ReplicatedValue>>, deltas: Vec<ReplicationDelta>, keys: &BTreeSet<String>) -> (BTreeMap<String, String>, BTreeMap<String, String>, BTreeMap<String, String>) {
+fn apply_to_node(replica_id: u64, checkpoint: Option<HashMap<String, redis_sim::replication::state::ReplicatedValue>>, deltas: Vec<ReplicationDelta>, keys: &BTreeSet<String>) -> (BTreeMap<String, String>, BTreeMap<String, String>, BTreeMap<String, String>) {
     RT.with(|rt| {
         rt.block_on(async {
-            let cfg = ReplicationConfig { enabled: false, replica_id: 9, ..Default::default() };
+            let cfg = ReplicationConfig { enabled: false, replica_id, ..Default::default() };
             let node = ReplicatedShardedState::with_time_source(cfg, VerifTime::new(1_000));
             node.apply_recovered_state(checkpoint.clone(), deltas.clone());
             let snap1: Fold = node.snapshot_state().await.into_iter().collect();
@@ -179,13 +179,17 @@ fn check(case: &Case, with_node: bool) -> Vec<(String, String)> {
                 ));
             } else if with_node {
                 let keys: BTreeSet<String> = all.iter().map(|u| u.key_name()).collect();
-                let (s1, s2, reads) = apply_to_node(r.checkpoint_state.clone(), r.deltas.clone(), &keys);
+                // the recovering node is replica 1 (it wrote part of what it recovers: updates stamped r1 are its own,
+                // r2's are a peer's) and, second, a replica that wrote none of it
+                for node_replica in [1u64, 9] {
+                let who = if node_replica == 1 { " own-writes" } else { "" };
+                let (s1, s2, reads) = apply_to_node(node_replica, r.checkpoint_state.clone(), r.deltas.clone(), &keys);
                 if s1 != expect_all {
                     let k = expect_all.keys().chain(s1.keys()).find(|k| expect_all.get(*k) != s1.get(*k)).unwrap();
-                    v.push((format!("node-state!=merge {shape}"), format!("{}: key {k}: node holds {:?} after apply_recovered_state, merge is {:?}", case.show(), s1.get(k), expect_all.get(k))));
+                    v.push((format!("node-state!=merge {shape}{who}"), format!("{}: key {k}: node holds {:?} after apply_recovered_state, merge is {:?}", case.show(), s1.get(k), expect_all.get(k))));
                 }
                 if s2 != s1 {
-                    v.push((format!("apply-twice-differs {shape}"), format!("{}: first {:?} second {:?}", case.show(), s1, s2)));
+                    v.push((format!("apply-twice-differs {shape}{who}"), format!("{}: first {:?} second {:?}", case.show(), s1, s2)));
                 }
                 let want_reads = views(&expect_all_fold);
                 if reads != want_reads {
@@ -195,6 +199,7 @@ fn check(case: &Case, with_node: bool) -> Vec<(String, String)> {
                         format!("node-reads!=merge merged={} read={}", class(want_reads.get(k)), class(reads.get(k))),
                         format!("{}: key {k}: a client reads {:?} after recovery, the merged state says {:?}", case.show(), reads.get(k), want_reads.get(k)),
                     ));
+                }
                 }
             }
         }
